@@ -77,7 +77,7 @@ func c01(c *core.Ctx, r *core.Report) {
 		runner, body, frame = iterationRunner(c)
 		r.Exists("iteration-runner", c.Pos(runner.Pos()), "%s invokes the scenario RunFn at %s", core.FuncName(runner), an.Pos(c, body))
 		check := func(fn *ssa.Function, what string, pred func(*ssa.Function) bool) {
-			exits := an.PathCount(fn, an.CallWeight(func(_ ssa.CallInstruction, t *ssa.Function) bool { return t != nil && pred(t) }, 2))
+			exits := an.PathCount(fn, an.CallWeight(func(_ ssa.CallInstruction, t *ssa.Function) bool { return t != nil && pred(t) }, flatDepth))
 			n := 0
 			for _, e := range exits {
 				if _, isRet := e.Instr.(*ssa.Return); !isRet {
@@ -97,31 +97,12 @@ func c01(c *core.Ctx, r *core.Report) {
 		}
 		check(runner, "Stats.Record", isStatsRecord)
 		check(runner, "Metrics.RecordIterationResult", isMetricsIter)
-		// drop recorders: functions of internal/workers passing the DroppedResult constant to either recorder
-		dropped := resultConst(c, "DroppedResult")
-		seen := map[*ssa.Function]bool{}
-		for _, fn := range c.AllFuncs {
-			if core.RelPkg(fn) != "internal/workers" || fn == runner {
-				continue
-			}
-			for _, call := range an.AllCalls(fn) {
-				t := an.Callee(call)
-				if t == nil || !(isStatsRecord(t) || isMetricsIter(t)) {
-					continue
-				}
-				k, ok := resultArg(call).(*ssa.Const)
-				if ok && k.Value != nil && constant.StringVal(k.Value) == dropped {
-					seen[fn] = true
-				} else {
-					r.Violation(core.FuncName(fn)+"#record", an.Pos(c, call), "recording call outside the iteration runner whose outcome is not the DroppedResult constant (%s)", an.D().Of(resultArg(call)))
-				}
-			}
-		}
-		for fn := range seen {
+		drops := dropRecorderFns(c, r, runner)
+		for _, fn := range drops {
 			check(fn, "Stats.Record", isStatsRecord)
 			check(fn, "Metrics.RecordIterationResult", isMetricsIter)
 		}
-		r.Floor("drop recorders", len(seen), 1)
+		r.Floor("drop recorders", len(drops), 1)
 	})
 
 	rule(r, "C01.R2", "both records in the iteration runner receive the same ResultType value: metrics.Result(x) with x one read of T.Failed() on the body's T, taken after the body call", func() {
@@ -130,21 +111,20 @@ func c01(c *core.Ctx, r *core.Report) {
 			return
 		}
 		var flags []ssa.Value
-		var calls []ssa.CallInstruction
-		for _, call := range an.AllCalls(runner) {
-			t := an.Callee(call)
-			if t == nil || !(isStatsRecord(t) || isMetricsIter(t)) {
+		var evs []recEvent
+		for _, e := range recordEvents(runner) {
+			if e.Kind == "setup" {
 				continue
 			}
-			calls = append(calls, call)
-			a := resultArg(call)
-			if rc, ok := a.(*ssa.Call); ok && an.IsFunc(an.Callee(rc), metricsPkg, "Result") {
-				flags = append(flags, rc.Call.Args[0])
+			evs = append(evs, e)
+			v := an.Strip(e.Result)
+			if rc, ok := v.(*ssa.Call); ok && an.IsFunc(an.Callee(rc), metricsPkg, "Result") {
+				flags = append(flags, an.Strip(e.Ev.Translate(rc.Call.Args[0])))
 			} else {
-				flags = append(flags, a)
+				flags = append(flags, v)
 			}
 		}
-		if !r.Floor("recording calls", len(calls), 2) {
+		if !r.Floor("recording calls", len(evs), 2) {
 			return
 		}
 		key := core.FuncName(runner) + "#outcome"
@@ -157,29 +137,29 @@ func c01(c *core.Ctx, r *core.Report) {
 		if !same {
 			var ds []string
 			for i, f := range flags {
-				ds = append(ds, an.Pos(c, calls[i])+": "+an.D().Of(f))
+				ds = append(ds, an.Pos(c, evs[i].Ev.Instr)+": "+an.D().Of(f))
 			}
-			r.Violation(key, an.Pos(c, calls[0]), "the recording calls classify the iteration from different reads of the outcome (%s): a failure landing between them is counted differently by the result and the metrics", strings.Join(ds, "; "))
+			r.Violation(key, an.Pos(c, evs[0].Ev.Instr), "the recording calls classify the iteration from different reads of the outcome (%s): a failure landing between them is counted differently by the result and the metrics", strings.Join(ds, "; "))
 			return
 		}
-		fc, ok := an.Strip(flags[0]).(*ssa.Call)
+		fc, ok := flags[0].(*ssa.Call)
 		if !ok || !isMethod(an.Callee(fc), testingPkg, "T", "Failed") {
-			r.Violation(key, an.Pos(c, calls[0]), "the recorded outcome is %s, not metrics.Result(T.Failed())", an.D().Of(flags[0]))
+			r.Violation(key, an.Pos(c, evs[0].Ev.Instr), "the recorded outcome is %s, not metrics.Result(T.Failed())", an.D().Of(flags[0]))
 			return
 		}
 		tDesc := stripCaret(an.D().Of(fc.Call.Args[0]))
-		bodyT := stripCaret(an.D().Of(body.Common().Args[0]))
+		bodyT := stripCaret(an.D().Of(iterationBodyT(c)))
 		if tDesc != bodyT {
 			r.Violation(key, an.Pos(c, fc), "outcome read from %s but the body ran with %s", tDesc, bodyT)
 			return
 		}
-		if !an.Dominates(frame, fc) {
-			r.Violation(key, an.Pos(c, fc), "T.Failed() is read before the body call at %s (not dominated by it): failures of the body are not seen", an.Pos(c, frame))
+		if fc.Parent() != runner || !an.Dominates(frame, fc) {
+			r.Violation(key, an.Pos(c, fc), "T.Failed() is not read in the runner's frame after the body call at %s: failures of the body are not seen", an.Pos(c, frame))
 			return
 		}
-		for _, call := range calls {
-			if !an.Dominates(fc, call) {
-				r.Violation(key, an.Pos(c, call), "recording call not dominated by the outcome read")
+		for _, e := range evs {
+			if !an.Dominates(fc, e.Ev.Root()) {
+				r.Violation(key, an.Pos(c, e.Ev.Instr), "recording call not dominated by the outcome read")
 				return
 			}
 		}
@@ -715,7 +695,8 @@ func routingRules(c *core.Ctx, r *core.Report) {
 			}
 		}
 	}
-	// CollectLifetime's results: #0 period (drain destination), #1 lifetime
+	// the collector's results: #0 period (drain destination), #1 lifetime
+	_, life := progressRoles(c)
 	cl := c.MustFn("internal/progress", "DurationStats.CollectLifetime")
 	for _, ret := range an.Returns(cl) {
 		if len(ret.Results) != 2 {
@@ -723,8 +704,8 @@ func routingRules(c *core.Ctx, r *core.Report) {
 			continue
 		}
 		d0, d1 := an.D().Of(ret.Results[0]), an.D().Of(ret.Results[1])
-		r.Check(strings.Contains(d1, "Snapshot($d.lifetime)"), "CollectLifetime#lifetime-result", an.Pos(c, ret), "#1 ← "+d1, "second result (lifetime figures) is "+d1)
-		r.Check(strings.Contains(d0, "Snapshot(") && !strings.Contains(d0, "$d.lifetime"), "CollectLifetime#period-result", an.Pos(c, ret), "#0 ← "+d0, "first result (period figures) is "+d0)
+		r.Check(strings.Contains(d1, "Snapshot($d."+fieldOfClass(life)+")"), "CollectLifetime#lifetime-result", an.Pos(c, ret), "#1 ← "+d1, "second result (lifetime figures) is "+d1)
+		r.Check(strings.Contains(d0, "Snapshot(") && !strings.Contains(d0, "$d."+fieldOfClass(life)), "CollectLifetime#period-result", an.Pos(c, ret), "#0 ← "+d0, "first result (period figures) is "+d0)
 	}
 }
 
@@ -738,3 +719,130 @@ func mapKeys(m map[string]ssa.Instruction) []string {
 }
 
 func itoa(i int) string { return sprintf("%d", i) }
+
+// dropRecorderFns finds, by role, the minimal functions of internal/workers whose recording events carry the
+// DroppedResult constant; recording calls elsewhere (outside the runner) must forward their own parameter.
+func dropRecorderFns(c *core.Ctx, r *core.Report, runner *ssa.Function) []*ssa.Function {
+	dropped := resultConst(c, "DroppedResult")
+	isDropped := func(v ssa.Value) bool {
+		k, ok := an.Strip(v).(*ssa.Const)
+		return ok && k.Value != nil && k.Value.Kind() == constant.String && constant.StringVal(k.Value) == dropped
+	}
+	var cands []*ssa.Function
+	for _, fn := range c.AllFuncs {
+		if core.RelPkg(fn) != "internal/workers" || fn.Parent() != nil || fn == runner {
+			continue
+		}
+		var evs []recEvent
+		for _, e := range recordEvents(fn) {
+			if e.Kind != "setup" {
+				evs = append(evs, e)
+			}
+		}
+		if len(evs) == 0 {
+			continue
+		}
+		all := true
+		for _, e := range evs {
+			if !isDropped(e.Result) {
+				all = false
+			}
+		}
+		if all {
+			cands = append(cands, fn)
+			continue
+		}
+		// not a drop recorder: every recording call in its own frame must pass on its own parameter (a wrapper)
+		if r != nil {
+			for _, e := range evs {
+				if e.Ev.Frame.Parent != nil || isDropped(e.Result) {
+					continue
+				}
+				if _, isParam := an.Strip(e.Result).(*ssa.Parameter); isParam {
+					continue
+				}
+				// functions that merely reach the runner are fine (their events are the runner's)
+				if len(an.FlatCalls(fn, flatDepth, func(_ ssa.CallInstruction, t *ssa.Function) bool { return t == runner })) > 0 {
+					continue
+				}
+				r.Violation(core.FuncName(fn)+"#record", an.Pos(c, e.Ev.Instr), "recording call outside the iteration runner whose outcome is neither the DroppedResult constant nor the function's own parameter (%s)", an.D().Of(e.Result))
+			}
+		}
+	}
+	// minimal ones
+	var out []*ssa.Function
+	for _, f := range cands {
+		callsOther := false
+		for _, g := range cands {
+			if f != g && len(an.FlatCalls(f, flatDepth, func(_ ssa.CallInstruction, t *ssa.Function) bool { return t == g })) > 0 {
+				callsOther = true
+			}
+		}
+		if !callsOther {
+			out = append(out, f)
+		}
+	}
+	return out
+}
+
+// progressRoles names, by role, the two accumulators of a DurationStats: the per-period one (written from the
+// iteration runner) and the lifetime one (the struct field that receives values read from another instance).
+func progressRoles(c *core.Ctx) (hot, lifetime string) {
+	runner, _, _ := iterationRunner(c)
+	reach := map[*ssa.Function]bool{}
+	var walk func(f *ssa.Function, d int)
+	walk = func(f *ssa.Function, d int) {
+		if f == nil || reach[f] || d < 0 {
+			return
+		}
+		reach[f] = true
+		for _, call := range an.AllCalls(f) {
+			if t := an.Callee(call); t != nil && core.InModule(t) {
+				walk(t, d-1)
+			}
+		}
+	}
+	walk(runner, 6)
+	sites := durationAtomics(c)
+	for _, s := range sites {
+		if s.Op == "Add" && reach[s.Fn] {
+			for _, k := range classesVia(c, s.Call.Common().Args[0].(*ssa.FieldAddr).X, reach, 4) {
+				if k != "local" {
+					hot = k
+				}
+			}
+		}
+	}
+	for _, s := range sites {
+		if !(s.Op == "Add" || s.Op == "Store") || len(s.Call.Common().Args) < 2 {
+			continue
+		}
+		src, ok := stripAllocs(s.Call.Common().Args[1]).(*ssa.Call)
+		if !ok {
+			continue
+		}
+		t := an.Callee(src)
+		if t == nil || t.Pkg == nil || t.Pkg.Pkg.Path() != "sync/atomic" || !(t.Name() == "Load" || t.Name() == "Swap") {
+			continue
+		}
+		if an.D().Of(src.Call.Args[0].(*ssa.FieldAddr).X) == an.D().Of(s.Call.Common().Args[0].(*ssa.FieldAddr).X) {
+			continue // same instance (check-then-update), not a merge
+		}
+		for _, k := range s.classes {
+			if k != hot && k != "local" && !strings.HasPrefix(k, "?") {
+				lifetime = k
+			}
+		}
+	}
+	if hot == "" || lifetime == "" {
+		panic(core.AnchorError{What: "per-period / lifetime accumulators of progress.DurationStats (hot=" + hot + ", lifetime=" + lifetime + ")"})
+	}
+	return
+}
+
+func fieldOfClass(class string) string {
+	if i := strings.LastIndex(class, "."); i >= 0 {
+		return class[i+1:]
+	}
+	return class
+}
